@@ -328,4 +328,44 @@ PROPS = {
         rule="as C05, restricted to schedules containing at least one drop",
         trusted=["RecvHandle::recv is cancel-safe"],
     ),
+    "C20": dict(
+        thm=["Bgpfu.Thm.C20"],
+        pre_lean="python3 tools/logtable.py",
+        ops=[("logs", [])],
+        timeout=900,
+        technique="Lean 4 non-interference theorem over a table that a translator (tools/logtable.py) regenerates from the "
+                  "Rust sources on every run (every tracing::instrument attribute, tracing event macro and error-text "
+                  "constructor with the formatter class of each recorded field) + dynamic scan of everything the real "
+                  "library/agent write to a capturing subscriber / stderr / log file",
+        level_text="Theorem log_noninterference: for all values of the SSH password and of the TLS client key the logging "
+                   "sites of netconf and junos-agent write the same text, at every verbosity and under every filter "
+                   "(log_noninterference_at_level, log_noninterference_filtered). Proved for ALL tables without a "
+                   "secret-printing formatter (induction) and instantiated by deciding that side condition in the kernel on "
+                   "the table regenerated from /repo; noninterference_iff_allSafe shows the side condition is exact, so one "
+                   "leaking site makes the theorem fail. The table is tied to the code by the translator (fails closed) and "
+                   "by checking the runtime metadata (file, line, level, field names) of every callsite seen in real SSH / "
+                   "TLS / local-CLI sessions against it.",
+        level_note="The theorem is about the source-derived table: it covers every logging and error-text site of the two "
+                   "crates, not what dependencies (russh, rustls, tokio) log themselves and not the translator's "
+                   "classification rules (formatter evidence for dependency types is re-read from the vendored sources on "
+                   "every run; data flow is explicit-flow, name-based, intraprocedural plus function-result summaries). "
+                   "Those gaps are covered by a test only: real connection attempts (accepted/rejected passwords, four "
+                   "private-key formats, wrong CA / name / key, mis-wired and damaged PEM files given to the real agent "
+                   "binary) under a TRACE subscriber and several EnvFilter directives, whose complete output is searched for "
+                   "each secret in clear, Debug-escaped, hex, base64 and byte-list form.",
+        rule="a case is one real connection attempt or agent run: (transport ssh|tls|cli, outcome variant, secret value, "
+             "EnvFilter directive) or (agent, PEM scenario, key format, one-shot|daemon, verbosity); plus one row per distinct "
+             "callsite (kind, file, line, level, field names) observed at run time, one row for the table's side condition "
+             "and two source-count rows",
+        trusted=["tools/logtable.py: lexer, attribute/macro parser, explicit-flow taint rules and the list of secret-carrying "
+                 "types (Password, PrivateKeyDer & variants, rustls_pemfile::Item as values; ClientConfig, TlsStream as handles)",
+                 "rustc/tracing-attributes semantics of #[instrument] (records every non-skipped parameter with Debug) as "
+                 "mirrored by the translator; checked per callsite against runtime metadata only for the sites the runs reach",
+                 "the dynamic scan sees only the encodings it searches for (clear, Debug/escape_default, hex, base64 std/url, "
+                 "byte list; whole secret, PEM body lines and 16-byte windows of the private part of the key)"],
+        assumptions=["error values logged by the agent consist of the error texts constructed in the two crates (table entries "
+                     "of kind errtext) and of dependency error texts (scan only)",
+                     "methods of rustls ClientConfig / TlsStream and of the russh session handle do not return the secret "
+                     "they were built from (results of calls on these handles are not followed by the translator)"],
+    ),
 }
